@@ -265,6 +265,14 @@ func checkVersionValidate(c *Ctx, vf *ssa.Function, rule string) {
 		}
 	}
 	c.Check(lo && hi, rule, "version.Validate:nonce-bounds", vpos, "nonce length bounded below and above", "nonce length is not bounded on both sides")
+	okNil := false
+	for _, g := range cmpGuards(vf, nil) {
+		gg, o := g.oriented(func(v ssa.Value) bool { return hasField(v, "keys") && !isNilConst(v) })
+		if o && isNilConst(gg.Y) && gg.Op == token.EQL {
+			okNil = true
+		}
+	}
+	c.Check(okNil, rule, "version.Validate:keys-non-nil", vpos, "a nil key is refused", "a null entry in the key list is not refused before it is dereferenced (a remote can serve \"pub_keys\":[null])")
 	okK := false
 	for _, cl := range CallsNamed(vf, "entities/identity.Key.Validate") {
 		if cl.Value() != nil && errorPropagated(cl.Value(), nil) {
@@ -375,6 +383,48 @@ func checkCacheMergeFold(c *Ctx, rule string) {
 					if n == "cache.SubCache.write" {
 						writes = true
 					}
+				}
+			}
+		}
+	}
+	// the folding is conditional on nothing but "no error" and the New/Updated status
+	for _, b := range body.Blocks {
+		for _, ins := range b.Instrs {
+			what := ""
+			switch x := ins.(type) {
+			case *ssa.MapUpdate:
+				if _, fld, ok := loadOfField(x.Map); ok && (fld == "excerpts" || fld == "cached") {
+					what = fld
+				}
+			case ssa.CallInstruction:
+				if n, _ := callName(x.Common()); strings.HasSuffix(n, ".IndexOne") {
+					what = "index"
+				}
+			}
+			if what == "" {
+				continue
+			}
+			hdr := enclosingLoopHeader(ins.Block())
+			var stop *ssa.BasicBlock
+			if hdr != nil {
+				stop = hdr.Idom()
+			}
+			for _, cc := range controlConds(ins.Block(), stop) {
+				if isLoopHeader(cc.If.Block()) {
+					continue
+				}
+				okCond := false
+				if bo, isBo := cc.If.Cond.(*ssa.BinOp); isBo {
+					if hasField(bo.X, "Status") || hasField(bo.Y, "Status") || hasField(bo.X, "Err") || hasField(bo.Y, "Err") {
+						okCond = true
+					}
+					// err == nil / err != nil on a local error value
+					if isNilConst(bo.X) || isNilConst(bo.Y) {
+						okCond = true
+					}
+				}
+				if !okCond {
+					c.Violate(rule, "SubCache.MergeAll:"+what+"-unconditional", w.InstrPos(ins), "folding a New/Updated merge result into "+what+" is additionally conditional on "+w.InstrPos(cc.If)+": some merged entities are not (fully) taken over by the cache, later edits build on the stale instance")
 				}
 			}
 		}
